@@ -236,6 +236,13 @@ class Differential(Stage):
             from core.wl import protocol
             for gm in drv.ctl.all_messages:
                 for i, a in enumerate(gm.args):
+                    if isinstance(a, wl.Arg.Array) and a.values is not None:
+                        # an array whose contents are known shows them - also when there are none
+                        from core.util import no_color
+                        shown = no_color(str(a)).split('=', 1)[-1] if a.name else no_color(str(a))
+                        if not (shown.startswith('[') and shown.endswith(']')) or (shown == '[...]') or (len(a.values) == 0) != (shown == '[]'):
+                            res.bad('array-rendering', '%s: array of %d known elements is shown as %r' % (str(gm), len(a.values), shown))
+                            break
                     if isinstance(a, wl.Arg.Array) and a.values:
                         res.count('array-elements-checked', len(a.values))
                         for e in a.values:
